@@ -278,5 +278,8 @@ func writeSlices(sw *bufio.Writer, s *vt.Sched, tag string) int {
 	if want("resp") {
 		n += writeRespSlices(sw, s, tag)
 	}
+	if want("pool") {
+		n += writePoolSlices(sw, s, tag)
+	}
 	return n
 }
